@@ -291,18 +291,24 @@ class Interposer:
         self.in_save = False
         self.fired = False
         self.renamed: dict[str, str] = {}    # open handle name -> current name of its inode
+        self.exc = None                      # callable msg -> exception instance for ("before"/"mid") crashes
 
     # naming
     def name(self, p) -> str:
-        p = Path(p)
+        p = Path(os.path.abspath(os.fspath(p)))      # the code under test may carry a str or a relative path
         if self.base is not None:
-            if p == self.base:
+            b = Path(os.path.abspath(os.fspath(self.base)))
+            if p == b:
                 return "base"
-            if p == self.base.with_suffix(".new"):
+            if p == b.with_suffix(".new"):
                 return "new"
-            if p == self.base.with_suffix(".bak"):
+            if p == b.with_suffix(".bak"):
                 return "bak"
         return "other:" + p.name
+
+    def make_exc(self, msg: str) -> BaseException:
+        """the exception an exception-style crash raises (default: `Crash`)"""
+        return self.exc(msg) if self.exc is not None else Crash(msg)
 
     def note(self, ev: str):
         self.events.append(ev)
@@ -322,7 +328,7 @@ class Interposer:
                 os._exit(9)
             if mode == "before" and can_raise:
                 self.fired = True
-                raise Crash(f"before event {idx} ({ev}) of save {self.save_calls}")
+                raise self.make_exc(f"before event {idx} ({ev}) of save {self.save_calls}")
         self.note(ev)
         return idx
 
@@ -349,12 +355,29 @@ class Interposer:
         if self._mid(len(self.events)):
             if self.on_dump is not None:
                 self.on_dump(obj, self.save_calls)
-            data = pickle.dumps(obj, *a, **kw)
-            fh.write(data[: max(1, len(data) // 2)])
+            frac = self.crash[2] if len(self.crash) > 2 else 0.5
+            total = len(pickle.dumps(obj, *a, **kw))
+            limit = min(total - 1, max(0, int(total * frac)))
             if self.crash[0] == "kill_mid":
+                fh.write(pickle.dumps(obj, *a, **kw)[:max(1, limit)])
                 os._exit(9)
-            self.fired = True
-            raise Crash(f"inside dump of save {self.save_calls}: {len(data) // 2} of {len(data)} bytes written")
+            ip = self
+
+            class _Limited:
+                """the file object `pickle.dump` writes to: accepts `limit` bytes, then the write raises"""
+                left = limit
+
+                def write(self, b):
+                    b = bytes(b)
+                    if len(b) > self.left:
+                        if self.left:
+                            fh.write(b[: self.left])
+                        self.left = 0
+                        ip.fired = True
+                        raise ip.make_exc(f"inside dump of save {ip.save_calls}: {limit} of {total} bytes written")
+                    self.left -= len(b)
+                    return fh.write(b)
+            return pickle.dump(obj, _Limited(), *a, **kw)
         idx = self._pre(f"dump:{nm}")
         if self.on_dump is not None:
             self.on_dump(obj, self.save_calls)
@@ -453,6 +476,31 @@ def file_state(p: Path) -> str:
         return f"c{getattr(impl, '_verif_snap', '?')}"
     except Exception:
         return "p"
+
+
+def run_injected(ip: "Interposer", fn):
+    """call the real code with a crash armed in `ip`: ("ok", result) | ("crash", exc) | ("raised", exc).
+    Whatever escapes after the injection fired is the crash — the code under test may have replaced the injected
+    exception by its own (an error raised in a `finally:` clause) or swallowed it; only an `Exception` escaping
+    although nothing was injected is the real code raising by itself."""
+    try:
+        r = fn()
+    except BaseException as e:
+        if ip.fired:
+            return "crash", e
+        if isinstance(e, Exception):
+            return "raised", e
+        raise
+    return ("crash", None) if ip.fired else ("ok", r)
+
+
+def exception_kinds():
+    """(name, factory) of the exceptions injected as crashes: two `Exception`s and two bare `BaseException`s"""
+    import errno
+    return [("Crash(BaseException)", lambda m: Crash(m)),
+            ("OSError(ENOSPC)", lambda m: OSError(errno.ENOSPC, "No space left on device (injected: " + m + ")")),
+            ("MemoryError", lambda m: MemoryError(m)),
+            ("KeyboardInterrupt", lambda m: KeyboardInterrupt(m))]
 
 
 def dir_state(base: Path) -> str:
